@@ -825,6 +825,7 @@ func c14Run(c *core.Ctx) {
 	t0 = time.Now()
 	c14Env(c)
 	c14CompilerOptions(c)
+	c14Late(c)
 	c.SetMax("phase_ms:environment_sweep", time.Since(t0).Milliseconds())
 	t0 = time.Now()
 	if c.Shard != 0 {
@@ -846,6 +847,14 @@ func c14Replay(pl json.RawMessage) (string, []core.Violation) {
 	var p c14Payload
 	json.Unmarshal(pl, &p)
 	switch p.Clause {
+	case "late":
+		var kind, k int
+		fmt.Sscan(p.Text[0], &kind)
+		fmt.Sscan(p.Text[1], &k)
+		if kd, d := c14LateCheck(kind, k, p.Text[2]); kd != "" {
+			return "builder extended after Build", []core.Violation{{Kind: kd, Detail: d}}
+		}
+		return "builder extended after Build", nil
 	case "kopt":
 		var hist []int
 		for _, t := range p.Text {
@@ -933,7 +942,7 @@ func c14Replay(pl json.RawMessage) (string, []core.Violation) {
 func init() {
 	core.Register(&core.PropSpec{
 		ID: "C14", Level: "model_checking",
-		Rule:     "(H) every history <= depth 4 (5 thorough, reduced alphabet) ending in an observation over 47 calls on two parser/lexer builder stacks and two compilers {NewBuilder, RegisterInfix/Postfix/Prefix with plugin token types, two order-observable statement interceptors, a re-entrant expression interceptor, WithTolerantMode, WithSmartSemicolon, Build(4 inputs)+ParseProgram at once, Build alone and ParseProgram of the pending parser later (a parser keeps the configuration it was built with), WithPrettyPrint x2, WithSourceMap, Compile(tree of A | tree of B | previous tree of A), debug.ToString}: each Build observation (errors, tree dump with positions, final context) and each Compile observation (code, mappings, names) equals the observation of the same configuration replayed on FRESH instances used alone; the tree dump is unchanged by Compile/ToString; Code with source map = Code without; debug.ToString = compact compilation. (S) schedules: the jobs of 4 scenarios (S1 distinct builders with different plugins/options/inputs, S2 one shared parser builder, S3 one shared tree compiled under different configurations + debug.ToString, S4 one shared configured compiler) run as threads of a cooperative scheduler on the overlay-instrumented library (yield points: every access to a package-level variable [granularity 0], + every store through a selector/index/pointer [1], + every function and closure entry [2]); iterative context bounding: ALL schedules with <= b preemptions are executed (quick tier, 2 jobs: b=3 at granularity 0; b=1 at granularities 1 and 2 on the full inputs; b=2 at granularity 1 on the full inputs for the shared-object scenarios S2-S4; b=2 at granularity 2 on one-expression inputs for S3 and S4, at granularity 1 for S1; 3 jobs: b=2 at granularity 0, b=1 at granularity 1 on the full inputs and at granularity 2 on one-expression inputs; thorough adds S2 at granularity 2 with b=2, 3 jobs with b=4 at granularity 0, S1 with b=2 at granularity 1, and b=3 / 3 jobs b=2 at granularity 2 for S3, S4); the exact task list and the time of each task are in the evidence file; each job's result must equal its result when run alone; a violating schedule is replayed and must reproduce before it is believed; a package-level variable written by one job and accessed by another is reported (the library has no synchronisation); package-level state invariance: after all jobs have run once, every package-level variable of the library is dumped, the jobs are run again on inputs of the same shapes with different spellings, and the dump must be unchanged (a cache keyed by input is shared mutable state even when it is synchronised). (R) complement, sampling, not the deciding step: the same jobs free-running on 16 goroutines under the race detector. states = histories + schedules executed; transitions = history steps + scheduling steps (E) environment sweep: every token sequence <= 3 (4 thorough) in 2 layouts, every family program in 3 layouts, the scale family, the identifier family, every expression chain of depth <= 2 (3) and the executable statement family, in all 4 modes, parsed through 5 environments (fresh plain builder; fresh builder with an unused language extension installed through a plugin; one plain and one extended builder per mode kept for the whole run; lexer builder shared with a sibling builder of the opposite modes that parsed the input first) and, when accepted, compiled in 4 option sets by a fresh compiler and by one compiler kept for the whole run: tree with positions, errors, code and map are identical; and the code of 4 option sets is the same with and without WithSourceMap(); (K) every history of <= 3 (4) compiler option calls over 7 calls (WithPrettyPrint with option lists in different orders, WithSourceMap) with a Compile in the middle equals the compiler the option model predicts, on 3 probes; debug.ToString equals the compact code and the tree dump is unchanged after all compilations; the trees of parsers built from independent builders share no mutable memory (reflective walk over slices with capacity, maps and pointed-to structs, unexported fields included).",
+		Rule:     "(H) every history <= depth 4 (5 thorough, reduced alphabet) ending in an observation over 47 calls on two parser/lexer builder stacks and two compilers {NewBuilder, RegisterInfix/Postfix/Prefix with plugin token types, two order-observable statement interceptors, a re-entrant expression interceptor, WithTolerantMode, WithSmartSemicolon, Build(4 inputs)+ParseProgram at once, Build alone and ParseProgram of the pending parser later (a parser keeps the configuration it was built with), WithPrettyPrint x2, WithSourceMap, Compile(tree of A | tree of B | previous tree of A), debug.ToString}: each Build observation (errors, tree dump with positions, final context) and each Compile observation (code, mappings, names) equals the observation of the same configuration replayed on FRESH instances used alone; the tree dump is unchanged by Compile/ToString; Code with source map = Code without; debug.ToString = compact compilation. (S) schedules: the jobs of 4 scenarios (S1 distinct builders with different plugins/options/inputs, S2 one shared parser builder, S3 one shared tree compiled under different configurations + debug.ToString, S4 one shared configured compiler) run as threads of a cooperative scheduler on the overlay-instrumented library (yield points: every access to a package-level variable [granularity 0], + every store through a selector/index/pointer [1], + every function and closure entry [2]); iterative context bounding: ALL schedules with <= b preemptions are executed (quick tier, 2 jobs: b=3 at granularity 0; b=1 at granularities 1 and 2 on the full inputs; b=2 at granularity 1 on the full inputs for the shared-object scenarios S2-S4; b=2 at granularity 2 on one-expression inputs for S3 and S4, at granularity 1 for S1; 3 jobs: b=2 at granularity 0, b=1 at granularity 1 on the full inputs and at granularity 2 on one-expression inputs; thorough adds S2 at granularity 2 with b=2, 3 jobs with b=4 at granularity 0, S1 with b=2 at granularity 1, and b=3 / 3 jobs b=2 at granularity 2 for S3, S4); the exact task list and the time of each task are in the evidence file; each job's result must equal its result when run alone; a violating schedule is replayed and must reproduce before it is believed; a package-level variable written by one job and accessed by another is reported (the library has no synchronisation); package-level state invariance: after all jobs have run once, every package-level variable of the library is dumped, the jobs are run again on inputs of the same shapes with different spellings, and the dump must be unchanged (a cache keyed by input is shared mutable state even when it is synchronised). (R) complement, sampling, not the deciding step: the same jobs free-running on 16 goroutines under the race detector. states = histories + schedules executed; transitions = history steps + scheduling steps (E) environment sweep: every token sequence <= 3 (4 thorough) in 2 layouts, every family program in 3 layouts, the scale family, the identifier family, every expression chain of depth <= 2 (3) and the executable statement family, in all 4 modes, parsed through 5 environments (fresh plain builder; fresh builder with an unused language extension installed through a plugin; one plain and one extended builder per mode kept for the whole run; lexer builder shared with a sibling builder of the opposite modes that parsed the input first) and, when accepted, compiled in 4 option sets by a fresh compiler and by one compiler kept for the whole run: tree with positions, errors, code and map are identical; and the code of 4 option sets is the same with and without WithSourceMap(); (L) a builder with k = 0..17 items of one kind (statement / expression / token interceptors, infix / prefix operators) builds a parser, receives one more item that would change the result, and only then the first parser parses: it equals the parser of an identical builder that was never extended (4 probes); (K) every history of <= 3 (4) compiler option calls over 7 calls (WithPrettyPrint with option lists in different orders, WithSourceMap) with a Compile in the middle equals the compiler the option model predicts, on 3 probes; debug.ToString equals the compact code and the tree dump is unchanged after all compilations; the trees of parsers built from independent builders share no mutable memory (reflective walk over slices with capacity, maps and pointed-to structs, unexported fields included).",
 		Assume:   []string{"sequential consistency; scheduling points as listed (races between two accesses inside one function without a store or call in between are left to the race pass)", "solo replay = the builder's configuration calls without its earlier Build calls"},
 		QuickSec: 400, ThorSec: 3000, Run: c14Run, Replay: c14Replay,
 		Evals: "observations_compared_with_solo", Nontriv: "schedules", States: "histories", Trans: "schedule_steps",
